@@ -826,6 +826,7 @@ pub mod life {
         #[kani::stub(alloc::alloc::alloc, crate::verif::common::stub_alloc)]
         #[kani::stub(alloc::alloc::dealloc, crate::verif::common::stub_dealloc)]
         #[kani::stub(alloc::alloc::realloc, crate::verif::common::stub_realloc)]
+        #[kani::stub(alloc::fmt::format, crate::verif::common::stub_format)]
         fn shared_stream_min_c18() { let _ = shared_stream_min::<NL, _>(&mut KaniSrc, P18); }
         #[kani::proof]
         #[kani::unwind(4)]
@@ -879,12 +880,14 @@ pub mod life {
         #[kani::stub(alloc::alloc::alloc, crate::verif::common::stub_alloc)]
         #[kani::stub(alloc::alloc::dealloc, crate::verif::common::stub_dealloc)]
         #[kani::stub(alloc::alloc::realloc, crate::verif::common::stub_realloc)]
+        #[kani::stub(alloc::fmt::format, crate::verif::common::stub_format)]
         fn life_c18_oneshot_bc_n3() { let _ = hist::<OneshotBc<NL>, _>(&mut KaniSrc, 3, P18); }
         #[kani::proof]
         #[kani::unwind(5)]
         #[kani::stub(alloc::alloc::alloc, crate::verif::common::stub_alloc)]
         #[kani::stub(alloc::alloc::dealloc, crate::verif::common::stub_dealloc)]
         #[kani::stub(alloc::alloc::realloc, crate::verif::common::stub_realloc)]
+        #[kani::stub(alloc::fmt::format, crate::verif::common::stub_format)]
         fn life_c18_state_n3() { let _ = hist::<State<NL>, _>(&mut KaniSrc, 3, P18); }
         /// The allocator stubs are live: an armed Box allocation and its release are counted.
         #[kani::proof]
@@ -892,6 +895,7 @@ pub mod life {
         #[kani::stub(alloc::alloc::alloc, crate::verif::common::stub_alloc)]
         #[kani::stub(alloc::alloc::dealloc, crate::verif::common::stub_dealloc)]
         #[kani::stub(alloc::alloc::realloc, crate::verif::common::stub_realloc)]
+        #[kani::stub(alloc::fmt::format, crate::verif::common::stub_format)]
         fn c18_selftest() {
             // unarmed allocations are counted by nobody and trip nothing
             let b0 = alloc::boxed::Box::new(7u32);
@@ -907,6 +911,10 @@ pub mod life {
             v.push(1);
             assert!(alloc_events() >= 2, "C18 selftest: an armed Vec allocation was not counted (stubs not applied)");
             core::mem::forget(v);
+            let before = alloc_events();
+            let st = alloc::format!("x{}", 1u8);
+            assert!(alloc_events() > before, "C18 selftest: format! was not counted (alloc::fmt::format stub not applied)");
+            core::mem::forget(st);
         }
         #[kani::proof]
         #[kani::unwind(4)]
